@@ -69,19 +69,41 @@ pub fn c18(d: &[u8]) -> Result<(), String> {
         exact(&r, d, pt, min).map_err(|m| format!("{}: {}", name, m))
     };
     typed!(d, f);
-    if let Err(e) = Unknown::parse(d) {
-        truthful(&e, d, None)?;
+    // the parsers without a packet type of their own: "shorter than the minimum" and "length differs from the header
+    // length" are reported exactly as well (the type byte is whatever the input carries)
+    let ru = Unknown::parse(d).map(|_| ());
+    if let Err(e) = &ru {
+        truthful(e, d, None)?;
     }
-    if let Err(e) = ReportBlock::parse(d) {
-        truthful(&e, d, None)?;
+    exact(&ru, d, if d.len() >= 2 { d[1] } else { 0 }, 4).map_err(|m| format!("Unknown: {}", m))?;
+    let rb = ReportBlock::parse(d).map(|_| ());
+    if let Err(e) = &rb {
+        truthful(e, d, None)?;
+    }
+    match &rb {
+        Err(RtcpParseError::Truncated { expected, actual }) if d.len() < 24 && *expected == 24 && *actual == d.len() => {}
+        Err(RtcpParseError::TooLarge { expected, actual }) if d.len() > 24 && *expected == 24 && *actual == d.len() => {}
+        Ok(()) if d.len() == 24 => {}
+        other => return Err(format!("ReportBlock: {} octets reported as {:?}", d.len(), other)),
+    }
+    if d.len() < 4 {
+        crate::IN_PARSE_PRECHECK.store(1, std::sync::atomic::Ordering::SeqCst);
+        let p = std::panic::catch_unwind(|| Packet::parse(d).map(|_| ()));
+        crate::IN_PARSE_PRECHECK.store(0, std::sync::atomic::Ordering::SeqCst);
+        if let Ok(r) = p {
+            exact(&r, d, 0, 4).map_err(|m| format!("Packet: {}", m))?;
+        }
     }
     // compound parsing last, inside the "parsing itself" window: if it panics or hangs on this input that is C01's
     // business and says nothing about the truthfulness of errors
     crate::IN_PARSE_PRECHECK.store(1, std::sync::atomic::Ordering::SeqCst);
     let c = std::panic::catch_unwind(|| Compound::parse(d).map(|_| ()));
     crate::IN_PARSE_PRECHECK.store(0, std::sync::atomic::Ordering::SeqCst);
-    if let Ok(Err(e)) = c {
-        truthful(&e, d, None)?;
+    if let Ok(Err(e)) = &c {
+        truthful(e, d, None)?;
+    }
+    if let (Ok(r), true) = (&c, d.len() < 4) {
+        exact(r, d, 0, 4).map_err(|m| format!("Compound: {}", m))?;
     }
     Ok(())
 }
